@@ -3,14 +3,14 @@ package main
 // Symbolic values and memory.
 
 import (
-	"sync"
-	"sync/atomic"
-	"os"
-	"runtime/debug"
-	"strings"
 	"fmt"
 	"go/types"
 	"math/big"
+	"os"
+	"runtime/debug"
+	"strings"
+	"sync"
+	"sync/atomic"
 
 	"golang.org/x/tools/go/ssa"
 )
@@ -172,6 +172,7 @@ type sharedWatch struct {
 	mu   sync.Mutex
 	max  int
 	hits map[string]bool
+	objs map[*Object]bool // objects the harness declared shared between goroutines (read-only after construction)
 }
 
 func (s *State) fork() *State {
@@ -627,7 +628,7 @@ func (s *State) store(p Pointer, v Value) {
 	if !ok {
 		fail("store to unknown object %s", p.Obj.name)
 	}
-	if s.shared != nil && p.Obj.id <= s.shared.max && !p.Obj.spec {
+	if s.shared != nil && ((p.Obj.id <= s.shared.max && !p.Obj.spec) || s.shared.objs[p.Obj]) {
 		s.shared.mu.Lock()
 		s.shared.hits[p.Obj.name] = true
 		s.shared.mu.Unlock()
